@@ -882,6 +882,7 @@ package nutsdb
 //@ func MMapRWManager.ReadAt
 //@   implements RWManager.ReadAt
 //@   requires mm != nil
+//@   ensures[C09,C19,C21] mm.m != nil && 0 <= off && off + len(b) <= len(mm.m) ==> err == nil && n == len(b)
 //@   safety[C20] panics
 //@ func MMapRWManager.Sync
 //@   implements RWManager.Sync
